@@ -34,6 +34,9 @@ pub enum Mark {
     Boundary { pos: usize },
     /// the parentheses of a call / parameter list
     Call { lp: usize, rp: usize },
+    /// a word operand of a macro expression: one MacroString token spans exactly [pos, pos+len)
+    /// (no operator token inside a word)
+    Text { pos: usize, len: usize },
 }
 
 #[derive(Clone, Debug)]
@@ -248,7 +251,7 @@ impl G<'_> {
 
     fn mref(&mut self) {
         self.p.kinds.insert("mref");
-        match self.r.below(6) {
+        match self.r.below(9) {
             0 | 1 => {
                 let w = self.word();
                 self.put(&format!("&{w}"));
@@ -265,10 +268,32 @@ impl G<'_> {
                 let (a, b) = (self.word(), self.word());
                 self.put(&format!("&&{a}&{b}."));
             }
-            _ => {
+            5 => {
                 let w = self.word();
                 self.put(&format!("&&&{w}"));
             }
+            6 => {
+                let w = self.word();
+                self.put(&format!("&{w}"));
+            }
+            7 => {
+                // double dot: terminator + literal dot
+                let (a, b) = (self.word(), self.ascii_word());
+                self.put(&format!("&{a}..{b}"));
+            }
+            _ => {
+                let (a, b) = (self.word(), self.ascii_word());
+                self.put(&format!("&&{a}&{b}..x"));
+            }
+        }
+    }
+
+    /// macro variable reference in running text: may be followed by an ampersand that is plain text
+    fn mref_text(&mut self) {
+        self.mref();
+        if self.r.chance(1, 6) && !self.p.s.ends_with('.') {
+            let t = self.r.pick(&["& ", "&1", "&&9 ", "& x"]);
+            self.put(t);
         }
     }
 
@@ -455,7 +480,7 @@ impl G<'_> {
                 "word"
             }
             4 => {
-                self.mref();
+                self.mref_text();
                 "mref"
             }
             5 => {
@@ -928,6 +953,23 @@ impl G<'_> {
     // ----------------------------------------------------------------------------------------
     // expressions
 
+    /// a plain word as operand: it is text, whatever letters it is made of
+    fn word_operand(&mut self) {
+        let w = if self.cfg.unicode && self.r.chance(1, 8) {
+            // decomposed (NFD) spellings and other XID_Continue characters inside a word
+            self.r.pick(&["mo\u{308}ge", "la\u{308}ge", "Be\u{301}nin", "col\u{b7}le", "é1", "naïve", "x\u{301}eq"])
+        } else {
+            self.r.pick(&[
+                "abc", "val", "x1", "zz", "foo", "tmp", "line", "one", "age", "alone", "gene", "angle", "legend", "engine", "none",
+                "long", "oil", "nine", "lane", "eagle", "opinion", "online", "annoy", "label", "level", "ideal", "agenda", "e", "n",
+                "ge1", "eq_", "note", "andy", "order", "inner", "gt2", "le_x", "notin", "origin",
+            ])
+        };
+        let pos = self.pos();
+        self.put(w);
+        self.p.marks.push(Mark::Text { pos, len: w.len() });
+    }
+
     fn operand(&mut self, float: bool, depth: usize) {
         let choice = if self.room() && depth < 3 { self.r.below(12) } else { self.r.below(6) };
         match choice {
@@ -944,15 +986,11 @@ impl G<'_> {
                     self.put(t);
                     self.p.marks.push(Mark::Float { pos, len: t.len(), bits: t.parse::<f64>().unwrap_or(0.0).to_bits() });
                 } else {
-                    let w = self.r.pick(&["abc", "val", "x1", "zz", "foo"]);
-                    self.put(w);
+                    self.word_operand();
                 }
             }
             5 => self.mref(),
-            6 => {
-                let w = self.r.pick(&["abc", "val", "x1", "zz", "foo", "tmp"]);
-                self.put(w);
-            }
+            6 => self.word_operand(),
             7 => self.fncall(),
             8 => self.squote(),
             9 | 10 => {
@@ -1104,7 +1142,7 @@ impl G<'_> {
             6 => self.squote(),
             7 => self.dquote(true),
             8 => self.dquote(false),
-            9 | 10 => self.mref(),
+            9 | 10 => self.mref_text(),
             11 | 12 => self.mcall_p(),
             13 | 14 => self.fncall(),
             _ => {
@@ -1215,14 +1253,26 @@ impl G<'_> {
         }
     }
 
+    /// references usable inside a name expression (no literal dots)
+    fn mref_name(&mut self) {
+        let before = self.p.s.len();
+        loop {
+            self.mref();
+            if !self.p.s[before..].contains("..") {
+                break;
+            }
+            self.p.s.truncate(before);
+        }
+    }
+
     fn name_expr(&mut self) {
         match self.r.below(6) {
             0 => {
                 let w = self.ascii_word();
                 self.put(w);
-                self.mref();
+                self.mref_name();
             }
-            1 => self.mref(),
+            1 => self.mref_name(),
             _ => {
                 let w = self.ascii_word();
                 self.put(w);
@@ -1248,7 +1298,7 @@ impl G<'_> {
                     self.put(&t);
                 }
                 4 => { let t__ = self.r.pick(&["=", "+", "(", ")", ",", "a=b", "x.y", "/", "%", "&"]); self.put(t__) },
-                5 => self.mref(),
+                5 => self.mref_text(),
                 6 => self.squote(),
                 7 => self.dquote(true),
                 8 | 9 => self.mcall_p(),
